@@ -311,6 +311,13 @@ class C05(Monitor):
                          f"batch {d.get('batch')} at seq {seq}, complete since seq {sub.complete_seq[sub.epoch]}")
         elif kind == "fs":
             p = d.get("path", "")
+            if p.endswith("/results.json") and d.get("op") in ("write", "truncate", "create"):
+                sub = self.ctx.sub_for_path(p)
+                if sub is not None and sub.epoch in sub.complete_seq:
+                    vp = self.w.vprocs[vpid]
+                    self.bad("completed_twice", "the completion steps ran again after the submission was complete",
+                             f"{p} {d.get('op')} at seq {seq} by {vp.role} on {vp.host}; complete since seq "
+                             f"{sub.complete_seq[sub.epoch]} (epoch {sub.epoch})")
             if p.endswith("/submitter.lock"):
                 st = self.rounds.setdefault(vpid, {"touched": False, "removed": False})
                 if d.get("op") == "create":
@@ -321,6 +328,10 @@ class C05(Monitor):
             vp = self.w.vprocs[vpid]
             if vp.tags.get("user_cmd") == "recovery" and self.ctx.clean_run():
                 self._check_recovery(vp, seq)
+            if vp.tags.get("user_cmd") == "after_completion" and self.ctx.clean_run():
+                if d.get("rc") != 0 or vp.crash:
+                    self.bad("poke_after_completion_failed", "a command on a completed submission did not exit cleanly",
+                             f"{' '.join(vp.argv[1:2])} rc={d.get('rc')} crash={vp.crash and (vp.crash['type'], vp.crash['where'])}")
             st = self.rounds.get(vpid)
             if st and st["touched"] and st["removed"] and d.get("rc") == 0 and self.ctx.clean_run():
                 self._check_no_needless_wait(vp, seq)
@@ -1330,6 +1341,22 @@ class C10World(Monitor):
             self.bad("acted_while_other_holds_role", "a process performed a submitter-only action while another holds the role",
                      f"seq {seq}: {self.w.vprocs[vpid].role} on {self.w.vprocs[vpid].host} {what}; role held by "
                      f"{o.role} on {o.host} (alive={o.alive})")
+
+    def finish(self):
+        # nobody is running any more: the role must have been released (unless its holder was killed)
+        w = self.w
+        if not self.ctx.clean_run() or w.cut:
+            return
+        if any(v.killed and v.kill_reason != "reap" for v in w.vprocs):
+            return
+        for sub in self.ctx.subs.values():
+            if sub.sc.mode != "hpc" or not sub.monitoring:
+                continue
+            lo = sub.last_obs
+            if lo and lo.get("cfg") and lo["cfg"].get("submitter") is not None:
+                crash = sorted({(v.role, v.crash["type"], v.crash["where"]) for v in w.vprocs if v.crash})
+                self.bad("role_leaked", "the submitter role is still held although no process is running",
+                         f"submitter={lo['cfg'].get('submitter')!r} at the end of a fault-free run; crashes={crash}")
 
     def on_status(self, sub, o):
         cfg = o.get("cfg")
